@@ -129,6 +129,8 @@ static void p2p(vh::Rng & r, int type, vh::Out & out)
   // a third of the clouds are large (coordinates up to +-200, not preconditioned unless the overload does it): the normal matrix
   // then has a condition number of 1e4..1e6, the upper part of the property's envelope
   const long long big = r.coin(1, 3) ? r.range(8, 22) : 1;
+  // the motion itself in units of 2^-m (all parameters, hence all residuals, scaled exactly): fine motions down to 1e-4
+  const double mu = std::ldexp(1.0, -(int)r.pick(IV{0, 0, 0, 8, 13}));
   IV xs; for (size_t k = 0; k < NP; ++k) {xs.push_back(r.range(-3, 3));}
   if (r.coin(1, 3)) {for (size_t k = DIM; k < NP; ++k) {xs[k] = 0;}}        // a pure translation
   std::vector<IV> src, nrm; IV ys;
@@ -176,18 +178,18 @@ static void p2p(vh::Rng & r, int type, vh::Out & out)
       // the first twin gets +d, this one -d; d equal to the consistent residual makes this twin's residual exactly zero
       const long long d = r.coin() ? y : r.range(-6, 6);
       ys[(size_t)twin[k]] += d;
-      IV g0; for (size_t a = 0; a < DIM; ++a) {g0.push_back(src[(size_t)twin[k]][a] + ys[(size_t)twin[k]] * nrm[(size_t)twin[k]][a]);}
-      pt[tpos[twin[k]]] = mk<PT, DIM>(g0);
+      std::vector<double> g0; for (size_t a = 0; a < DIM; ++a) {g0.push_back((double)src[(size_t)twin[k]][a] + (double)ys[(size_t)twin[k]] * mu * (double)nrm[(size_t)twin[k]][a]);}
+      pt[tpos[twin[k]]] = mkd<PT, DIM>(g0, 1.0);
       y -= d;
     }
     ys.push_back(y);
-    IV g; for (size_t a = 0; a < DIM; ++a) {g.push_back(s[a] + y * nn[a]);}          // target = source + (row . x*) n
-    ps[spos[k]] = mk<PT, DIM>(s); pt[tpos[k]] = mk<PT, DIM>(g);
+    std::vector<double> g; for (size_t a = 0; a < DIM; ++a) {g.push_back((double)s[a] + (double)y * mu * (double)nn[a]);}          // target = source + (row . x*) n
+    ps[spos[k]] = mk<PT, DIM>(s); pt[tpos[k]] = mkd<PT, DIM>(g, 1.0);
     std::vector<double> nd; for (auto v : nn) {nd.push_back((double)v);}
     ns[tpos[k]] = mkd<PT, DIM>(nd, 0.0);
   }
   // scales that keep the condition number of the normal matrix below 1e6 (the property's envelope)
-  double scale = r.pick(std::vector<double>{1, 0.5, 0.125, 4, 0.1, 0.25, 10, 2, 0.05});
+  double scale = r.pick(std::vector<double>{1, 0.5, 0.125, 4, 0.1, 0.25, 10, 2, 0.05, 1.0 / 64, 1.0 / 512});
   double condN = 1;
   {
     // the rows of the problem actually solved: the preconditioned overloads work on sources scaled by the preconditioning scale
@@ -232,7 +234,9 @@ static void p2p(vh::Rng & r, int type, vh::Out & out)
   for (size_t i = 0; i <= DIM; ++i) {for (size_t j = 0; j <= DIM; ++j) {
       // the solver works on the normal matrix: its rounding error grows with that matrix's condition number
       const double tolq = std::max(tol * 10, 20.0 * (double)std::numeric_limits<S>::epsilon() * condN * 4.0);
-      double x = (double)H(i, j), rx = std::nearbyint(x); if (!(std::fabs(x - rx) <= tolq)) {ok = false;} Hm[i][j] = std::fabs(rx) < 2e9 ? (long long)rx : 0;}}
+      // identity + (skew + translation) in units of the motion
+      const double id = i == j ? 1.0 : 0.0;
+      double x = ((double)H(i, j) - id) / mu + id, rx = std::nearbyint(x); if (!(std::fabs(x - rx) <= tolq)) {ok = false;} Hm[i][j] = std::fabs(rx) < 2e9 ? (long long)rx : 0;}}
   IV x = DIM == 2 ? IV{Hm[0][2], Hm[1][2], Hm[1][0]} : IV{Hm[0][3], Hm[1][3], Hm[2][3], Hm[2][1], Hm[0][2], Hm[1][0]};
   out.put(vh::Ev("p2p").i("dim", DIM).i("type", type).i("how", how).mat("src", src).mat("nrm", nrm).vec("ys", ys).vec("xstar", xs).vec("x", x)
     .mat("Hm", Hm).b("ex", ok));
